@@ -195,6 +195,7 @@ def check_cv(case, ctx):
     d_arg, w_arg = pack(data), None if weights is None else pack(weights)
     kw = dict(cv=cv, scoring=scoring)
     serial = np.asarray(quiet(vd.cross_val_score, est, (e, n), d_arg, weights=w_arg, **kw))
+    ctx.check(serial.dtype.kind in "fi", "cross_val_score (not asked for delayed results) returned %s objects instead of numbers", type(np.ravel(serial)[0]).__name__ if serial.size else "no")
     ctx.check(serial.shape == (len(splits),), "cross_val_score returned %s scores for %d splits", serial.shape, len(splits))
     exp = own_scores(spec, scoring, (e, n), data, weights, splits)
     tol = 1e-9 * np.maximum(np.abs(exp), 1.0)
@@ -371,6 +372,9 @@ def check_splinecv(case, ctx):
         with warnings.catch_warnings():
             warnings.simplefilter("ignore")
             scores = np.asarray(dask.compute(*scores, scheduler="synchronous"), dtype="float64")
+    else:
+        ctx.check(all(isinstance(s, (float, int, np.floating, np.integer)) for s in np.ravel(np.asarray(scores, dtype=object))),
+                  "SplineCV(delayed=False).scores_ holds %s objects instead of numbers", type(np.ravel(np.asarray(scores, dtype=object))[0]).__name__)
     scores = np.asarray(scores, dtype="float64")
     exp = []
     splits = [(np.array(a), np.array(b)) for a, b in case["splits"]]
